@@ -212,11 +212,14 @@ def parse_model(case, line):
     return dict(result=np.array(t.mat()), fft_after=fft)
 
 
-def mat_close(a, b, rtol=1e-8):
+def mat_close(a, b, rtol=1e-8, atol_rel=0.0):
+    """element-wise relative comparison; atol_rel adds an absolute tolerance relative to the largest entry
+    (spectral values that are zero up to FFT round-off)"""
     a = np.asarray(a, dtype=float); b = np.asarray(b, dtype=float)
     if a.shape != b.shape:
         return False
-    return bool(np.all(np.abs(a - b) <= rtol * np.maximum(np.abs(a), np.abs(b)) + 1e-300))
+    big = float(np.max(np.abs(b))) if b.size else 0.0
+    return bool(np.all(np.abs(a - b) <= rtol * np.maximum(np.abs(a), np.abs(b)) + atol_rel * big + 1e-300))
 
 
 def results_agree(case, im, mo, rtol=1e-8):
